@@ -72,8 +72,6 @@ def pattern_groups(L, action="{ }", api="NR", prefix="N", vartrail=True, bol=Fal
     chains = [("a\\n", R.cat(A, NL), "b", B), ("[^a]", ('set', frozenset(R.ALL - {97})), "aa", R.cat(A, A)),
               ("b", B, "a\\n", R.cat(A, NL)), ("(?s:.)a", R.cat(('set', R.ALL), A), "b+", R.plus(B))]
     for i, (t1, a1, t2, a2) in enumerate(chains):
-        if api == "C99":
-            break           # the c99 back end refuses '|' actions (m4 error at generation time)
         name = "%sC%d" % (prefix, i)
         rules = [H.Rule(a1, scs=[name], text=t1, action="|"), H.Rule(a2, scs=[name], text=t2, action=action)]
         groups.append(H.Group([(name, True)], rules, name, ALPHA, L, label="nl-chain:%s | %s" % (t1, t2)))
